@@ -30,6 +30,29 @@ from .index import AnalysisError
 ALL = [f'C{i:02d}' for i in range(1, 21)]
 
 
+VERIF = os.path.dirname(os.path.dirname(os.path.abspath(__file__)))
+
+
+def independent_changes(pid: str) -> List[dict]:
+    """Changes written by independent sub-agents and stored under /verif: seeded/<name>/ (breaks the property named in its
+    meta.json: must be reported) and refactorings/<name>/ (behaviour preserving: must never be reported as a violation)."""
+    import json
+    out = []
+    sd = os.path.join(VERIF, 'seeded')
+    if os.path.isdir(sd):
+        for n in sorted(os.listdir(sd)):
+            mp = os.path.join(sd, n, 'meta.json')
+            if os.path.exists(mp) and json.load(open(mp)).get('property') == pid:
+                out.append({'id': f'seeded/{n}', 'property': pid, 'kind': 'break', 'patch': os.path.join(sd, n, 'patch.diff'), 'desc': 'independent seeded change'})
+    rd = os.path.join(VERIF, 'refactorings')
+    if os.path.isdir(rd):
+        for n in sorted(os.listdir(rd)):
+            pp = os.path.join(rd, n, 'patch.diff')
+            if os.path.exists(pp):
+                out.append({'id': f'refactoring/{n}', 'property': pid, 'kind': 'noalarm', 'patch': pp, 'desc': 'independent behaviour-preserving refactoring'})
+    return out
+
+
 def mutants_for(pid: str) -> List[dict]:
     try:
         m = importlib.import_module(f'sa.mutants.{pid.lower()}')
@@ -48,11 +71,16 @@ def mutants_for(pid: str) -> List[dict]:
 def _run_one(args):
     mu, repo_root = args
     from .check import run_property
-    edits = mu.get('edits') or [{'file': mu['file'], 'old': mu['old'], 'new': mu['new']}]
+    edits = [] if mu.get('patch') else (mu.get('edits') or [{'file': mu['file'], 'old': mu['old'], 'new': mu['new']}])
     tmp = tempfile.mkdtemp(prefix='sa_mut_')
     try:
         shutil.copytree(os.path.join(repo_root, 'bridge_env'), os.path.join(tmp, 'bridge_env'),
                         ignore=shutil.ignore_patterns('__pycache__'))
+        if mu.get('patch'):
+            import subprocess
+            pr = subprocess.run(['patch', '-p1', '-s', '-i', mu['patch']], cwd=tmp, capture_output=True, text=True)
+            if pr.returncode != 0:
+                return mu['id'], 'n/a', 'patch does not apply to the current tree'
         for ed in edits:
             p = os.path.join(tmp, ed['file'])
             if not os.path.exists(p):
@@ -78,6 +106,11 @@ def _run_one(args):
         out = buf.getvalue()
         if os.environ.get('SA_SHOW'):
             sys.stderr.write(out)
+        if mu['kind'] == 'noalarm':
+            if rc == 1:
+                first = [line for line in out.splitlines() if line.strip()][:3]
+                return mu['id'], 'FAIL', 'false alarm on a behaviour-preserving refactoring: ' + ' | '.join(first)
+            return mu['id'], 'ok', 'silent' if rc == 0 else 'no verdict (shape not supported), no alarm'
         if mu['kind'] == 'equiv':
             if rc == 0:
                 return mu['id'], 'ok', 'silent on equivalent refactor'
@@ -108,9 +141,16 @@ def run_mutants(pids: List[str], repo_root: str, jobs: int = 16):
 def run_for(chk) -> None:
     """Thorough tier: self-test of this property's rules on scratch copies of the current tree."""
     res = run_mutants([chk.pid], chk.repo.root)
-    summary = {'break_reported': 0, 'equiv_silent': 0, 'n/a': 0, 'failed': []}
+    work = [(mu, chk.repo.root) for mu in independent_changes(chk.pid)]
+    if work:
+        with ProcessPoolExecutor(max_workers=min(8, len(work))) as ex:
+            res += [(mu, r) for (mu, _), r in zip(work, ex.map(_run_one, work))]
+    summary = {'break_reported': 0, 'equiv_silent': 0, 'refactorings_no_alarm': 0, 'refactorings_no_verdict': 0, 'n/a': 0, 'failed': []}
     for mu, (mid, status, msg) in res:
-        if status == 'ok':
+        if status == 'ok' and mu['kind'] == 'noalarm':
+            summary['refactorings_no_alarm'] += 1
+            summary['refactorings_no_verdict'] += msg.startswith('no verdict')
+        elif status == 'ok':
             summary['break_reported' if mu['kind'] == 'break' else 'equiv_silent'] += 1
         elif status == 'n/a':
             summary['n/a'] += 1
@@ -129,6 +169,7 @@ def main(argv=None) -> int:
     ap.add_argument('-v', action='store_true')
     ap.add_argument('--repo', default=os.environ.get('SA_REPO', '/repo'))
     ap.add_argument('--show', help='run one mutant (id) and print the complete output of the check')
+    ap.add_argument('--independent', action='store_true', help='also run the stored independent changes (seeded/, refactorings/)')
     a = ap.parse_args(argv)
     pids = [p.upper() for p in a.props] or ALL
     if a.show:
@@ -137,6 +178,10 @@ def main(argv=None) -> int:
         print(_run_one((mu[0], a.repo)))
         return 0
     res = run_mutants(pids, a.repo, a.j)
+    if a.independent:
+        work = [(mu, a.repo) for pid in pids for mu in independent_changes(pid)]
+        with ProcessPoolExecutor(max_workers=min(a.j, max(1, len(work)))) as ex:
+            res += [(mu, r) for (mu, _), r in zip(work, ex.map(_run_one, work))]
     bad = 0
     for mu, (mid, status, msg) in res:
         if status not in ('ok',) or a.v:
